@@ -362,7 +362,19 @@ def check_signer(w, model, default_id, op, r, deleted_keys):
                 r.bad(f'C15/signer/raised/{form}/{type(e).__name__}', f'{e!r}')
             return
         if expect_fail:
-            return       # the library found something to sign with although the model has no default: not demanded either way
+            # the selected scope has nothing to sign with.  If the library hands out a signer anyway, it must at least not be one
+            # of ANOTHER identity's keys
+            if sel_id is not None and form != 'default':
+                d = P.strict_data(bytes(make_data(nm(['probe']), MetaInfo(), b'p', signer)))
+                for oid, ov in model.items():
+                    if oid == sel_id:
+                        continue
+                    for okn, ok_ in ov['keys'].items():
+                        if _verify(d['sig_info']['signature_type'], ok_['bits'], d['signed'], d['sig_value']):
+                            r.bad(f'C15/signer/key-of-another-identity/{form}', f'asked for {Name.to_str(Name.from_bytes(sel_id))} (nothing to '
+                                  f'sign with), got a signer of {Name.to_str(Name.from_bytes(okn))}')
+                            return
+            return
         wire = bytes(make_data(nm(['probe']), MetaInfo(), b'p', signer))
         d = P.strict_data(wire)
         bits = model[sel_id]['keys'][sel_key]['bits']
@@ -463,8 +475,27 @@ def apply_op(w, model, st_, op):
         kw = {}
         if op.get('key_id') is not None:
             kid = f'k{op["key_id"]}'
-            if any(kn.endswith(net.comp(kid)) for kn in model[idn]['keys']):
-                return 'skip', None
+            clash = next((kn for kn in model[idn]['keys'] if kn.endswith(net.comp(kid))), None)
+            if clash is not None:
+                # the id of an existing key: refused, and the existing key is untouched - its signer still signs with the private
+                # key that belongs to its public key
+                try:
+                    kc.new_key(Name.from_bytes(idn), op['type'], key_id=kid)
+                except (KeyError, ValueError, sqlite3.IntegrityError):
+                    pass
+                else:
+                    return 'duplicate-key-id-accepted', None
+                if model[idn]['keys'][clash]['default_cert'] is not None:
+                    try:
+                        signer = kc.get_signer({'key': Name.from_bytes(clash)})
+                        d_ = P.strict_data(bytes(make_data(nm(['probe']), MetaInfo(), b'p', signer)))
+                        if not _verify(d_['sig_info']['signature_type'], model[idn]['keys'][clash]['bits'], d_['signed'], d_['sig_value']):
+                            return 'refused-duplicate-key-id-replaced-the-private-key', None
+                    except (sqlite3.Error, OSError):
+                        raise
+                    except Exception:
+                        pass
+                return 'expected-error', None
             kw['key_id'] = kid
         key = kc.new_key(Name.from_bytes(idn), op['type'], **kw)
         kn = Name.to_bytes(key.name)
